@@ -19,6 +19,7 @@
 Require Import List ZArith. Import ListNotations.
 Require Import F204.Base.Util F204.Base.Mach F204.Gen.Params F204.Gen.Oids F204.Hash.HashIface F204.Impl.Encodings F204.Impl.MlDsa F204.Impl.Api
   F204.Spec.SpecConv F204.Spec.SpecRound F204.Proofs.KernelLemmas F204.Proofs.DeriveRefine F204.Proofs.Completeness.
+Require Import F204.Proofs.RealHashes.
 Open Scope Z_scope.
 
 Theorem C01_sign_then_verify : forall H, HashLaws H -> forall P, In P all_params -> forall fuel, Z.of_nat fuel * lz P < 65536 ->
@@ -56,6 +57,9 @@ Theorem C01_usehint_zero : forall g r, UseHint g 0 r = HighBits g r.
 Proof. intros. unfold UseHint, HighBits. destruct (Decompose g r). reflexivity. Qed.
 Theorem C01_usehint_one_moves : forall g r, g = 95232 \/ g = 261888 -> UseHint g 1 r <> UseHint g 0 r.
 Proof. exact UseHint_flip. Qed.
+
+(* non-vacuity of the hash hypothesis (see Proofs/RealHashes.v) *)
+Definition C01_for_the_executed_model := C01_sign_then_verify real_hashes real_hashes_laws.
 
 Print Assumptions C01_sign_then_verify.
 Print Assumptions C01_hash_sign_then_verify.
